@@ -222,8 +222,6 @@ def instances_are_independent(acc, plan, cname):
         want = shape(first)
         hdr = (first.header.get_command_code(), first.header.get_application_id(), first.header.get_flags())
         first.append(DiameterAVP(code=99991, data=b"scribble"))
-        if len(first.avps) > 2:
-            first.avps[1].data = first.avps[1].data if first.avps[1].data is None else first.avps[1].data + b""
         passed = set()
         for v in plan.kwargs.values():          # objects the caller handed in are the caller's: only what the class built itself is scribbled on
             passed.add(id(v))
@@ -236,7 +234,7 @@ def instances_are_independent(acc, plan, cname):
         first.header.flags = bytes([first.header.get_flags() | 0x10])
         second = plan.build()
     except BaseException as ex:
-        acc.observe("instance-independence-not-checked:%s" % type(ex).__name__)
+        acc.observe("instance-independence-not-checked:%s:%s" % (type(ex).__name__, str(ex)[:60]))
         return
     acc.counters["instance_pairs"] += 1
     got = shape(second)
